@@ -328,9 +328,15 @@ func c14(r *mon.Run) {
 	}
 	id3 = append(id3, '_')
 	id3 = append(id3, other...)
+	longIDs := []string{"null", "true", "false", "and", "or", "not", "length", "sort_by", "max_by", "to_string", "to_array", "max", "Name", "name", "NULL", "True", "nul", "nulls", "null_", "_null", "true1", "abs2", "foo_bar_baz", "A1_b2_C3",
+		"aVeryLongIdentifierWithManyCharactersInIt_0123456789_abcdefghijklmnopqrstuvwxyz", "__", "_0", "e1", "E5", "x0x", "inf", "nan", "NaN", "Infinity", "length_", "keys", "values", "type", "contains", "reverse", "merge", "join", "map",
+		"null-", "true.", "a-b", "1null", "nullé", "é", "null null", "length(", "a$", "$a", "a.b", "sort-by"}
 	n12 := 128 + 128*128
-	nid := n12 + len(id3)*len(id3)*len(id3)
+	nid := n12 + len(id3)*len(id3)*len(id3) + len(longIDs)
 	idAt := func(i int) string {
+		if k := i - n12 - len(id3)*len(id3)*len(id3); k >= 0 {
+			return longIDs[k]
+		}
 		switch {
 		case i < 128:
 			return string([]byte{byte(i)})
